@@ -221,6 +221,7 @@ ENCODINGS = {
     "list1": lambda a: [int(a)],
     "array1": lambda a: np.array([a]),
     "array11": lambda a: np.array([[a]]),
+    "uint64big": lambda a: np.uint64(2**63 + int(a)),      # ids beyond 2**53: distinct integers, equal as float64
 }
 
 
